@@ -28,6 +28,10 @@ R2.5 carried-over parts: every metadata section of CFG_METADATA present in
      the source plus `user` (and no analysis section) reaches
      store_metadata; all logs / tables are stored under the prefix exactly
      when requested.
+R2.7 lazy accessors: a feature accessor of a hierarchy child that fills a
+     memo on first use (``if self._array is None: self._array = …``) must
+     not let per-call arguments (dtype, copy, …) flow into the remembered
+     value.
 """
 from __future__ import annotations
 
@@ -758,6 +762,7 @@ def r24(ctx, repo):
         f = repo.func(EXP, f"Export.{meth}")
         bad = None
         bad_hdr = None
+        bad_dt = None
         for filtered in (True, False):
             for mask in MASKS5:
                 hw = HW()
@@ -787,6 +792,11 @@ def r24(ctx, repo):
                     bad = bad or (f"{tag}: the writer did not receive an "
                                   f"(events x features) table")
                     continue
+                if X.dtype not in (None, float, "float64", "longdouble"):
+                    bad_dt = bad_dt or (
+                        f"the table is converted to dtype {X.dtype!r} before "
+                        f"it is printed: float64 and large integer features "
+                        f"lose digits the %.10e format would show")
                 sel = [i for i, b in enumerate(mask) if b or not filtered]
                 cols = []
                 for col in X.rows:
@@ -828,6 +838,11 @@ def r24(ctx, repo):
         ctx.ob("R2.4", bad_hdr is None,
                f"{meth}: header and data columns agree" if bad_hdr is None
                else f"{meth}: {bad_hdr}", node=f, label=f"{meth} header")
+        if meth == "tsv":
+            ctx.ob("R2.4", bad_dt is None,
+                   "tsv: the table keeps the precision of the features (no "
+                   "narrowing dtype)" if bad_dt is None else
+                   f"tsv: {bad_dt}", node=f, label="tsv precision")
     # avi
     f = repo.func(EXP, "Export.avi")
     bad = None
@@ -889,8 +904,123 @@ def r23_guard(ctx, repo):
            label="one selection for all features")
 
 
+# ----------------------------------------------------------------------
+# R2.7 lazy accessors of hierarchy children
+
+HEV = "dclab/rtdc_dataset/fmt_hierarchy/events.py"
+
+
+def lazy_memos(tree):
+    """(class, method, attribute, assignment, test) for every
+    ``if self.<a> is None: … self.<a> = <value>`` inside a method"""
+    out = []
+    for cls in [n for n in tree.body if isinstance(n, ast.ClassDef)]:
+        for m in [n for n in cls.body if isinstance(n, ast.FunctionDef)]:
+            for n in walk(m):
+                if not isinstance(n, ast.If):
+                    continue
+                tested = set()
+                for c in ast.walk(n.test):
+                    if isinstance(c, ast.Compare) and len(c.ops) == 1 \
+                            and isinstance(c.ops[0], ast.Is) and isinstance(
+                            c.comparators[0], ast.Constant) \
+                            and c.comparators[0].value is None \
+                            and isinstance(c.left, ast.Attribute) \
+                            and isinstance(c.left.value, ast.Name) \
+                            and c.left.value.id == "self":
+                        tested.add(c.left.attr)
+                    elif isinstance(c, ast.UnaryOp) and isinstance(
+                            c.op, ast.Not) and isinstance(
+                            c.operand, ast.Attribute) and isinstance(
+                            c.operand.value, ast.Name) \
+                            and c.operand.value.id == "self":
+                        tested.add(c.operand.attr)
+                for st in n.body:
+                    for s in walk(st):
+                        if isinstance(s, ast.Assign) and len(
+                                s.targets) == 1 and isinstance(
+                                s.targets[0], ast.Attribute) and isinstance(
+                                s.targets[0].value, ast.Name) \
+                                and s.targets[0].value.id == "self" \
+                                and s.targets[0].attr in tested:
+                            out.append((cls, m, s.targets[0].attr, s, n))
+    return out
+
+
+def value_names(func, expr):
+    """names the value of `expr` depends on, locals of `func` expanded"""
+    defs = {}
+    for n in walk(func):
+        if isinstance(n, ast.Assign):
+            for t in n.targets:
+                for x in ast.walk(t):
+                    if isinstance(x, ast.Name):
+                        defs.setdefault(x.id, set()).update(
+                            names_in(n.value))
+        elif isinstance(n, ast.AugAssign) and isinstance(
+                n.target, ast.Name):
+            defs.setdefault(n.target.id, set()).update(names_in(n.value))
+        elif isinstance(n, (ast.For,)):
+            for x in ast.walk(n.target):
+                if isinstance(x, ast.Name):
+                    defs.setdefault(x.id, set()).update(names_in(n.iter))
+    seen = set()
+    todo = list(names_in(expr))
+    while todo:
+        x = todo.pop()
+        if x in seen:
+            continue
+        seen.add(x)
+        todo += list(defs.get(x, ()))
+    return seen
+
+
+def r27(ctx, repo):
+    memos = lazy_memos(repo.tree(HEV))
+    if not memos:
+        raise AnalysisError(f"{HEV}: no lazily filled accessor "
+                            f"(`if self._x is None: self._x = …`) found")
+    for cls, m, attr, st, test in memos:
+        a = m.args
+        params = [p.arg for p in (a.posonlyargs + a.args)[1:]
+                  + a.kwonlyargs]
+        if a.vararg:
+            params.append(a.vararg.arg)
+        if a.kwarg:
+            params.append(a.kwarg.arg)
+        used = sorted(value_names(m, st.value) & set(params))
+        ctx.ob("R2.7", not used,
+               f"the value remembered in `self.{attr}` does not depend on "
+               f"the arguments of this call" if not used else
+               f"`self.{attr}` is filled once but its value depends on the "
+               f"per-call argument(s) {used}: the first caller's "
+               f"{'/'.join(used)} sticks, later callers (e.g. the exporter) "
+               f"get values converted for someone else", node=st,
+               label=f"lazy memo {attr} independent of call arguments")
+    if ctx.tier == "thorough":
+        other = []
+        for rel in repo.files("dclab/rtdc_dataset/"):
+            if rel == HEV:
+                continue
+            for cls, m, attr, st, test in lazy_memos(repo.tree(rel)):
+                a = m.args
+                params = [p.arg for p in (a.posonlyargs + a.args)[1:]
+                          + a.kwonlyargs] + [
+                    x.arg for x in (a.vararg, a.kwarg) if x]
+                used = sorted(value_names(m, st.value) & set(params))
+                if used:
+                    other.append(f"{rel}::{cls.name}.{m.name}: self.{attr} "
+                                 f"depends on {used}")
+        ctx.note("lazy memos depending on call arguments outside the "
+                 "anchored hierarchy module (not judged): "
+                 + ("; ".join(other) or "none"))
+
+
 def run(ctx):
     repo = ctx.repo
+    ctx.rule("R2.7", "lazily filled feature accessors of hierarchy children "
+             "remember a value that does not depend on per-call arguments",
+             minimum=1)
     ctx.rule("R2.1", "store_filtered_feature stores exactly the selected "
              "events per feature kind, also for a mask longer than the "
              "feature", minimum=10)
@@ -900,7 +1030,8 @@ def run(ctx):
              "feature kind, fast path only without a partial selection, one "
              "selection for all features", minimum=14)
     ctx.rule("R2.4", "tsv / fcs / avi: selected events exactly when "
-             "`filtered`; header and columns agree", minimum=5)
+             "`filtered`; header and columns agree; no narrowing of "
+             "the text table", minimum=6)
     ctx.rule("R2.5", "metadata sections, user section, logs and tables are "
              "carried over as requested", minimum=8)
     feats = kinds_table(repo)
@@ -911,6 +1042,7 @@ def run(ctx):
     r23_guard(ctx, repo)
     r25(ctx, repo, feats)
     r24(ctx, repo)
+    r27(ctx, repo)
 
 
 def _re(pattern, repl):
@@ -1160,5 +1292,64 @@ TWINS = list(TWINS) + [
        "def store_filtered_feature(rtdc_writer, feat, data, filtarr):"),
       ('    elif feat in ["mask", "image", "image_bg"]:',
        "    elif feat in IMAGE_LIKE:")]),
+]
+
+
+META_LOOP = ("        # only cfg metadata (no analysis metadata)\n"
+             "        for sec in dfn.CFG_METADATA:\n"
+             "            if sec in ds.config:\n"
+             "                meta[sec] = ds.config[sec].copy()\n"
+             "        # add user-defined metadata\n"
+             '        if "user" in ds.config:\n'
+             '            meta["user"] = ds.config["user"].copy()\n')
+CHILD_MEMO = ("            self._array = hparent[self.feat][filt_arr]\n"
+              "        return np.array(self._array, dtype=dtype, copy=copy, "
+              "*args, **kwargs)\n")
+
+MUTANTS = list(MUTANTS) + [
+    ("hdf5: one loop over all sections without copying (seeded)", EXP,
+     (META_LOOP,
+      '        for sec in list(dfn.CFG_METADATA) + ["user"]:\n'
+      "            if sec in ds.config:\n"
+      "                meta[sec] = ds.config[sec]\n"), "R2.5"),
+    ("child scalar: memo converted with the first caller's dtype (seeded)",
+     HEV,
+     (CHILD_MEMO,
+      "            self._array = np.asarray(hparent[self.feat][filt_arr],\n"
+      "                                     dtype=dtype, *args, **kwargs)\n"
+      "        return np.array(self._array, dtype=dtype, copy=copy)\n"),
+     "R2.7"),
+    ("child scalar: memo dtype through a local", HEV,
+     (CHILD_MEMO,
+      "            arr = np.asarray(hparent[self.feat][filt_arr])\n"
+      "            if dtype is not None:\n"
+      "                arr = arr.astype(dtype)\n"
+      "            self._array = arr\n"
+      "        return np.array(self._array, dtype=dtype, copy=copy, "
+      "*args, **kwargs)\n"), "R2.7"),
+    ("tsv: table narrowed to float32 (seeded)", EXP,
+     ("                       np.array(data).transpose(),\n"
+      '                       fmt=str("%.10e"),',
+      "                       np.array(data, dtype=np.float32).transpose(),\n"
+      '                       fmt=str("%.10e"),'), "R2.4"),
+]
+
+TWINS = list(TWINS) + [
+    ("hdf5: one loop over all sections, copying", EXP,
+     (META_LOOP,
+      '        for sec in list(dfn.CFG_METADATA) + ["user"]:\n'
+      "            if sec in ds.config:\n"
+      "                meta[sec] = ds.config[sec].copy()\n")),
+    ("child scalar: plain array remembered, converted per call", HEV,
+     (CHILD_MEMO,
+      "            arr = hparent[self.feat][filt_arr]\n"
+      "            self._array = np.asarray(arr)\n"
+      "        return np.array(self._array, dtype=dtype, copy=copy, "
+      "*args, **kwargs)\n")),
+    ("tsv: table explicitly float64", EXP,
+     ("                       np.array(data).transpose(),\n"
+      '                       fmt=str("%.10e"),',
+      "                       np.array(data, dtype=np.float64).transpose(),\n"
+      '                       fmt=str("%.10e"),')),
 ]
 
